@@ -280,31 +280,38 @@ def replay(case):
     return r and '%s: %s' % r
 
 
-def cfg(maxobjs, maxops, classes):
+def cfg(maxobjs, maxops, classes, newtimes='StdTimes'):
     return """SPECIFICATION Spec
 CONSTANTS
  MaxObjs = %d
  MaxOps = %d
  Classes = %s
+ NewTimes <- %s
 PROPERTY Isolation
 PROPERTY FrozenNeverChanges
 INVARIANT FrozenRejectsMutation
 INVARIANT AllValidOrUnknown
 INVARIANT Emit
 CHECK_DEADLOCK FALSE
-""" % (maxobjs, maxops, classes)
+""" % (maxobjs, maxops, classes, newtimes)
 
 
 def run(ctx):
     thorough = ctx.tier == 'thorough'
     allc = '{"M", "MM", "SS", "UM", "RT"}'
     plans = [(3, 4, allc)] if thorough else [(3, 3, allc), (3, 4, '{"SS"}'), (2, 4, '{"UM"}'), (3, 4, '{"RT"}')]
-    for mo, mp, classes in plans:
+    # times -1 and -2 (equal hashes, unequal messages), four objects
+    plans = plans + [(4, 4, '{"M"}', 'NegTimes'), (4, 4, '{"MM"}', 'NegTimes')]
+    if thorough:
+        plans.append((4, 5, '{"M", "UM"}', 'NegTimes'))
+    for plan in plans:
+        mo, mp, classes = plan[:3]
+        nt = plan[3] if len(plan) > 3 else 'StdTimes'
         pr = core.ParallelReplay(ctx, worker, batch_size=1000)
-        res = core.run_tlc('MsgHeap', cfg(mo, mp, classes), on_emit=pr.push, raw_ints=True,
+        res = core.run_tlc('MsgHeap', cfg(mo, mp, classes, nt), on_emit=pr.push, raw_ints=True,
                            timeout=3400, heap='16g')
         pr.finish()
-        ctx.add_tlc(res, 'MsgHeap objs<=%d ops=%d classes %s' % (mo, mp, classes))
+        ctx.add_tlc(res, 'MsgHeap objs<=%d ops=%d classes %s new times %s' % (mo, mp, classes, nt))
     if thorough:
         pr = core.ParallelReplay(ctx, worker, batch_size=1000)
         res = core.run_tlc('MsgHeap', cfg(3, 10, allc), on_emit=pr.push, raw_ints=True, simulate=2000,
@@ -317,3 +324,6 @@ def run(ctx):
         'classes are represented by note_on, set_tempo, sequencer_specific and UnknownMetaMessage(0x60); values by {1, 2} plus one out-of-range value',
         'copy with overrides is judged against constructing the class afresh with the merged values (UnknownMetaMessage validates nothing)',
     ]
+    # re-entrancy: two threads inside these functions at once, a switch possible before every statement
+    from .. import conc
+    conc.run_scenarios(ctx, 'C15', 2 if ctx.tier == 'thorough' else 1)
